@@ -1073,7 +1073,6 @@ func genC05Huge(r *rand.Rand, emit func(Op)) {
 	size := pick(r, []int{70000, 1 << 20, 3 << 20, 8 << 20})
 	pad := func(c string) string { return fmt.Sprintf("{PAD:%d:%s}", size, c) }
 	head := "HTTP/1.0 200 OK\r\nContent-Type: application/activity+json\r\n"
-	redirect := false
 	var resp string
 	switch r.Intn(7) {
 	case 0:
@@ -1088,7 +1087,6 @@ func genC05Huge(r *rand.Rand, emit func(Op)) {
 		resp = head + "\r\n" + pad(" ") + "{\"stamp\":\"big\"}"
 	case 5:
 		resp = "HTTP/1.0 302 Found\r\nX-Big: " + pad("h") + "\r\nLocation: https://{H0}/{OP}/d0\r\n\r\n" + pad("b")
-		redirect = true
 	case 6:
 		resp = head + "Content-Type: application/" + pad("t") + "\r\n\r\n{\"stamp\":\"big\"}"
 	}
@@ -1099,7 +1097,6 @@ func genC05Huge(r *rand.Rand, emit func(Op)) {
 	routes := []any{map[string]any{"h": 0, "path": "/{OP}/d0", "resp": "HTTP/1.0 200 OK\r\nContent-Type: application/activity+json\r\n\r\n{\"stamp\":\"d0\"}", "fault": ""}}
 	target := "https://{H1}/{OP}/big"
 	routes = append(routes, map[string]any{"h": 1, "path": "/{OP}/big", "resp": resp, "fault": fault})
-	_ = redirect
 	seq := []any{target}
 	if !strings.Contains(fault, "reset") && r.Intn(2) == 0 {
 		seq = []any{target, target}
